@@ -22,6 +22,6 @@ one() {
 }
 export -f one
 mkdir -p /tmp/mx
-if [ $# -gt 0 ]; then ids="$@"; else ids=$(ls /verif/seeded | grep '^C'); fi
+if [ $# -gt 0 ]; then ids="$@"; else ids=$(ls /verif/seeded | grep -E '^C[0-9]+-m[0-9]+$'); fi
 echo $ids | tr ' ' '\n' | xargs -P 10 -I{} bash -c 'one {}' | sort
 git -C /repo worktree prune
